@@ -36,7 +36,8 @@ def budget(tier):
 
 _word = st.sampled_from(["a", "b", "ab", "c", "bc", "x y", "-o", "", "$V", "a=b"])
 _node = st.sampled_from(["n1", "n2", "n3", "d/n4", "n5", "<v1>", "<v2>"])
-FLAGS = ["allow-missing-inputs", "allow-modified-outputs", "always-out-of-date", "inherit-env", "can-safely-interrupt"]
+FLAGS = ["allow-missing-inputs", "allow-modified-outputs", "always-out-of-date", "inherit-env", "can-safely-interrupt",
+         "control-enabled"]
 STYLES = ["makefile", "dependency-info", "makefile-ignoring-subsequent-outputs"]
 
 
@@ -121,9 +122,9 @@ def mutate(draw, d):
     elif o == "flag":
         f = draw(st.sampled_from(FLAGS))
         default = {"allow-missing-inputs": False, "allow-modified-outputs": False, "always-out-of-date": False,
-                   "inherit-env": True, "can-safely-interrupt": True}[f]
+                   "inherit-env": True, "can-safely-interrupt": True, "control-enabled": True}[f]
         m[f] = not d.get(f, default)
-        if explicit and f in ("inherit-env", "can-safely-interrupt"):
+        if explicit and f in ("inherit-env", "can-safely-interrupt", "control-enabled"):
             o = "description"        # documented: not part of an explicit signature
             m = copy.deepcopy(d)
             m["description"] = (d.get("description") or "") + "!"
@@ -195,14 +196,16 @@ def process_case(draw):
 
 @st.composite
 def history_case(draw):
-    desc = draw(bm.description(max_cmds=6, allow_extra_tools=False))
+    # (an output may be declared `is-mutated`: only its existence counts - it is never the tampered one, but it
+    # may precede the one that is)
+    desc = draw(bm.description(max_cmds=6, allow_extra_tools=False, allow_mutated=True))
     shells = [c for c in desc["commands"] if c["tool"] == "shell"]
     target = draw(st.sampled_from(sorted(desc["targets"])))
     needed = [c["name"] for c in bm.needed_commands(desc, desc["targets"][target]) if c["tool"] == "shell"]
     pick = draw(st.sampled_from(needed)) if needed else None
     change = draw(st.sampled_from(["none", "none", "salt", "description", "tamper", "delete-output", "flag", "env"]))
     return {"kind": "history", "desc": desc, "target": target, "cmd": pick, "change": change,
-            "jobs": draw(st.sampled_from([None, 4])), "flag": draw(st.sampled_from(["allow-missing-inputs", "allow-modified-outputs", "can-safely-interrupt"]))}
+            "jobs": draw(st.sampled_from([None, 4])), "oidx": draw(st.integers(0, 3)), "flag": draw(st.sampled_from(["allow-missing-inputs", "allow-modified-outputs", "can-safely-interrupt", "control-enabled"]))}
 
 
 def strategy(tier):
@@ -307,27 +310,38 @@ def run_case(case, ctx, verbose=False):
         if not r1.ok:
             return Outcome("first build failed: %s" % r1.stderr[-300:], classes=["history"])
         change = case["change"] if case["cmd"] else "none"
+        extra_cls = []
         cmd = next((c for c in desc["commands"] if c["name"] == case["cmd"]), None)
         if change == "salt":
             cmd["salt"] = cmd.get("salt", "") + "!"
         elif change == "description":
             cmd["description"] = "new description"
         elif change == "flag":
-            cmd[case["flag"]] = not cmd.get(case["flag"], case["flag"] in ("inherit-env", "can-safely-interrupt"))
+            cmd[case["flag"]] = not cmd.get(case["flag"], case["flag"] in ("inherit-env", "can-safely-interrupt", "control-enabled"))
         elif change == "env":
             cmd["env"] = {"VERIF_X": "1"}
-        elif change == "tamper":
-            o = next(o for o in cmd["outputs"] if not bm.is_virtual(o))
-            ws.write(o, "junk\n")
-        elif change == "delete-output":
-            o = next(o for o in cmd["outputs"] if not bm.is_virtual(o))
-            ws.delete(o)
+        elif change in ("tamper", "delete-output"):
+            # any of the command's outputs, not only the first (a mutated one is checked for existence only:
+            # it may be deleted, not rewritten)
+            mut = set(desc.get("nodes", {}))
+            cand = [o for o in cmd["outputs"] if not bm.is_virtual(o) and (change == "delete-output" or o not in mut)]
+            if not cand:
+                return Outcome(None, nontrivial=False, classes=["history", "history:no-output-to-" + change])
+            o = cand[case.get("oidx", 0) % len(cand)]
+            if change == "tamper":
+                ws.write(o, "junk\n")
+            else:
+                ws.delete(o)
+            if o != cmd["outputs"][0]:
+                extra_cls.append("history:non-first-output")
+            if mut & set(cmd["outputs"][:cmd["outputs"].index(o)]):
+                extra_cls.append("history:after-a-mutated-output")
         bm.write_description(ws, desc)
         r2 = ws.build(target=case["target"], jobs=case["jobs"])
         if not r2.ok:
             return Outcome("second build failed: %s" % r2.stderr[-300:], classes=["history", change])
         ran = sorted(set(r2.ran()) | set(r2.started()))
-        cls = ["history", "history:" + change]
+        cls = ["history", "history:" + change] + extra_cls
         needed = bm.needed_commands(desc, desc["targets"][case["target"]])
         prod = bm.producers(desc)
         has_up = cmd is not None and any(i in prod for i in cmd.get("inputs", []))
